@@ -25,19 +25,23 @@ theorem c04s_reply_is_result {cfg : SrvCfg} {n : Nat} {s : MState} {log : List S
   c04_reply_is_result n s.pool (mreach_pool h)
 
 /-- **C04 on the server model: as many pool replies as tasks that replied, all of them enqueued, in order,
-    and — once the writer has drained the queue — all of them written.** -/
+    and — once the writer has drained the queue, no write having failed (`wthr ≠ 4`: a failed write loses the message the
+    writer held, Conc/MetaFault.lean) — all of them written.** -/
 theorem c04s_replies_reach_the_wire {cfg : SrvCfg} {n : Nat} {s : MState} {log : List String}
     (h : MReach cfg n s log) :
     s.pool.out.length = (s.pool.tasks.map (·.replied)).sum ∧ s.pool.out.Sublist log ∧
-    (s.sendQ = [] → s.wsend = none → s.pool.out.Sublist s.written) :=
+    (s.wthr ≠ 4 → s.sendQ = [] → s.wsend = none → s.pool.out.Sublist s.written) :=
   ⟨c04_out_count n s.pool (mreach_pool h), mreach_out_sublist h, mreach_drained h⟩
 
 /-- **C16 on the server model: written ++ held ++ queued is exactly what was enqueued, in enqueue order**
-    (nothing lost, duplicated or reordered between any producer and the writer), and what is on the wire is a
-    prefix of it. -/
+    (nothing lost, duplicated or reordered between any producer and the writer) as long as no write has failed; what is on
+    the wire is always a prefix of what was enqueued; and a failed write (`wthr = 4`) loses at most the one message the
+    writer held: the log is written ++ lost ++ held ++ queued with `lost` of length at most 1, empty if no write failed. -/
 theorem c16s_meta_fifo {cfg : SrvCfg} {n : Nat} {s : MState} {log : List String} (h : MReach cfg n s log) :
-    pending s = log ∧ s.written <+: log :=
-  ⟨mreach_pending h, mreach_written_prefix h⟩
+    (s.wthr ≠ 4 → pending s = log) ∧ s.written <+: log ∧
+    ∃ lost : List String, lost.length ≤ 1 ∧ (s.wthr ≠ 4 → lost = []) ∧
+      log = s.written ++ lost ++ s.wsend.toList ++ s.sendQ.filterMap id :=
+  ⟨mreach_pending h, mreach_written_prefix h, (mreach_pending_lost h).2⟩
 
 /-- non-vacuity: a Metadata server that received an init request and one NSC request in a single read is
     `MReach`able with the credentials message and the init reply written and one pool task submitted (the pool
